@@ -2,14 +2,37 @@ import XModel.ManagerInv
 import XModel.Acyclic
 import XModel.DfsIter
 import XModel.ManagerTrace
+import XModel.ManagerTrace2
 /-!
 # C02 — one assignment runs exactly the downstream tasks, once each, in dependency order
-Model: `Manager.findTaskids` = `Dfs3.toposort (gOf idx) fuel (startOf idx (chainR p))`, a literal
-transcription of `find_taskids` / `toposort` / `_dfs` (`XModel/Dfs3.lean`).
+Model: `Manager.findTaskids` = `Dfs3.toposort (gOf idx) fuel (startOf idx (chainR p))` (`XModel/Manager.lean`); this is
+the function the driver executes and the one every theorem below is about.
+
+**Which function is `_dfs`.**  Today's `xdeps/sorting.py::_dfs` is the explicit-stack loop
+(`todo = [(source, iter(graph[source]))]; while todo: …`, fix commit for defect D2).  Its statement-by-statement
+transcription is `DfsIter.iterStep` (`XModel/DfsIter.lean`: one pass through the `while` body — the next neighbour is
+skipped if visited, else marked and its frame pushed; an exhausted frame is popped and its node prepended to `stack`),
+iterated by `DfsIter.iterN`.  `Dfs3.dfs` (`XModel/Dfs3.lean`: recursive, fuel-indexed) transcribes `_dfs` AS FIRST
+PINNED (the recursive one); `Dfs3.toposort` is the `for vertex in start` loop around it, and it is what
+`Manager.findTaskids` calls.  The two are proved to compute the same thing: `C02_iterative_dfs_is_recursive_dfs`
+(= `DfsIter.dfs_claim`, one call of `_dfs`) and `C02_iterative_toposort_is_recursive_toposort` (the whole `toposort`).
+So: the theorems are stated for the recursive transcription and transfer to today's loop through these two; no theorem
+below mentions `DfsIter` otherwise.  What the repair changed in Python — no `RecursionError` on chains longer than the
+recursion limit — has no counterpart in either Lean function (both are total); D2's witness is a Python-side test.
 
 **Which tree.**  The model transcribes `/repo` as it stands now: the pinned commit plus the `fix:` commits recorded in
-`/verif/KNOWN_FINDINGS.json` (status `fixed`).  Where a theorem below rests on repaired code — the repaired `unregister` behind `MInv`, the iterative DFS (no recursion limit: termination on long chains) — it is false of
-the tree as first pinned; the witnesses are kept (defects D2, D3).
+`/verif/KNOWN_FINDINGS.json` (status `fixed`).  Where a theorem below rests on repaired code — the repaired `unregister`
+behind `MInv` (defect D3) — it is false of the tree as first pinned; the witnesses are kept (defects D2, D3).
+
+**What to read.**  List level: `C02_findTaskids` (acyclic: once, exact, ordered), `C02_findTaskids_once_exact` (every
+graph).  Execution level: `C02_execution_all_kinds` (trace of a completed assignment, expression + function + knob
+tasks, legal schedule) and `C02_execution_all_kinds_cyclic` / `_cyclic_any_order` (every graph: terminates, each task
+once, exactly the reachable ones); `C02_execution` / `C02_execution_any_order` are the earlier expression-only forms.
+In `C02_execution*` the conjuncts "no duplicates / exactly the declared-reachable / order" restate the scheduler
+hypothesis (`ValidSched`, resp. what is proved of the depth-first sort) through `gOf_iff_declEdge` /
+`findTaskids_assign_iff`; the derived content is the trace identity, and with the `_any_order` forms the fact that the
+depth-first sort satisfies the hypothesis whatever the iteration order.  `C02_runs_in_order` is a superseded fold
+identity, kept for reference only.
 -/
 namespace Properties.C02
 open Store Push Index Manager
@@ -64,7 +87,9 @@ theorem C02_acyclic_test_sound (s : MState) (hi : MInv s) (p : Path)
       Dfs3.Reach (gOf s.idx) a b → Dfs3.Reach (gOf s.idx) b a → False :=
   acyclicFrom_sound s hi (chainR p) h
 
-/-- `run_tasks` executes the list in order and nothing else: it is the left fold of `runTask` -/
+/-- SUPERSEDED (kept for reference): a fold identity — `run_tasks` on `l1 ++ l2`, when the part `l1` completes, continues
+    with `l2` from the state `l1` left.  It says nothing about which tasks are listed or what they write; the
+    execution-level statements are `C02_execution_all_kinds` and `C02_execution_all_kinds_cyclic` below. -/
 theorem C02_runs_in_order (l1 l2 : List MTask) (s s1 : MState) (h : runTasks s l1 = (s1, none)) :
     runTasks s (l1 ++ l2) = runTasks s1 l2 := runTasks_ok_append l1 l2 s s1 h
 
@@ -153,5 +178,164 @@ theorem C02_failing_call_runs_a_prefix :
   @Manager.setValue_trace_fail
 
 end wrapped
+
+/-! ### today's `_dfs` (explicit stack) and the recursive transcription compute the same thing -/
+section iter
+open Dfs3 DfsIter
+variable {α : Type} [DecidableEq α] (g : α → List α) (nodes : List α) (hclosed : ∀ u ∈ nodes, ∀ w ∈ g u, w ∈ nodes)
+
+include hclosed in
+/-- one call `_dfs(graph, v, stack, visited)`: started on the frame `(v, iter(graph[v]))` with `v` marked visited,
+    the `while todo:` loop reaches — after some number `k` of passes — the state the recursive `_dfs` returns, with
+    the frames underneath untouched; for every fuel `n` of the recursive version not below the number of unvisited
+    nodes -/
+theorem C02_iterative_dfs_is_recursive_dfs (n : Nat) (v : α) (st : St α) (fs : Frames α) (hv : v ∈ nodes)
+    (hnv : v ∉ st.visited) (hfuel : n ≥ unv nodes st.visited) :
+    ∃ k, iterN g k ((v, g v) :: fs, { st with visited := v :: st.visited }) = (fs, dfs g n v st) :=
+  dfs_claim g nodes hclosed n v st fs hv hnv hfuel
+
+include hclosed in
+/-- the whole `toposort(graph, start)`: the loop `for vertex in start: if vertex not in visited: _dfs(…)` is the frame
+    `(root, start)` (a vertex not yet visited is marked and its frame pushed, exactly the first two statements of
+    `_dfs`); run from empty `stack` / `visited`, it ends with that frame exhausted and `stack` = the list
+    `Dfs3.toposort` returns -/
+theorem C02_iterative_toposort_is_recursive_toposort (fuel : Nat) (start : List α) (root : α)
+    (hfuel : fuel ≥ nodes.length) (hstart : ∀ s ∈ start, s ∈ nodes) :
+    ∃ k st', iterN g k ([(root, start)], ⟨[], []⟩) = ([(root, [])], st') ∧ st'.stack = toposort g fuel start := by
+  obtain ⟨k, hk⟩ := list_of_dfs g nodes hclosed fuel (dfs_claim g nodes hclosed fuel) start ⟨[], []⟩ root [] hstart
+    (Nat.le_trans (unv_le_length nodes []) hfuel)
+  exact ⟨k, _, hk, rfl⟩
+
+end iter
+
+/-! ### the execution, all task kinds -/
+
+/-- **C02 on the execution, expression + function + linear-knob tasks** (any manager state reachable through the API,
+    completed `set_value(ref, value)`, any legal schedule).  With `pre = preState s p` — the state after `set_value`
+    has removed a definition AT `p` if there was one; `pre = s` otherwise (`C02_execution_all_kinds_plain`) — there is
+    a list `π` of task ids such that: the call appended to the trace exactly the write of the assigned location
+    followed by one block of events per element of `π`, in order; `π` has no duplicates (each task once); every element
+    is a registered task and its block is, by kind, the write of its target (expression task) / ONE action-call event
+    (function task) / one write per (weight, target) pair (linear knob) (`BlockOf`); the elements are exactly the
+    tasks reachable along DECLARED edges from a task declaring a dependency on the assigned location or a container
+    enclosing it; and a task never runs before a triggered task that produces one of its inputs. -/
+theorem C02_execution_all_kinds (sched : Sched) (s : MState) (hi : MInv s) (p : Path) (v : Val)
+    (hvs : ValidSched (gOf (preState s p).idx) (findTaskids (preState s p).idx (chainR p))
+      (sched (findTaskids (preState s p).idx (chainR p))))
+    (s' : MState) (hok : setValue sched s p v = (s', none)) :
+    ∃ π : List Path,
+      s'.trace = s.trace ++ (true, p) :: π.flatMap (evsAt (preState s p).defs) ∧
+      π.Nodup ∧
+      (∀ x ∈ π, ∃ t, BlockOf (preState s p).defs x t) ∧
+      (∀ x, x ∈ π ↔ ∃ t ∈ (preState s p).defs, (∃ d ∈ t.deps, 2 ≤ d.length ∧ d <+: p) ∧
+        DeclChain (preState s p).defs t.id x) ∧
+      (∀ u w, u ∈ π → w ∈ π → declEdge (preState s p).defs u w → w ≠ u → Dfs3.Before π u w) :=
+  setValue_execution_all_kinds sched s hi p v hvs s' hok
+
+/-- the task table the call runs on: the call state's table without the definition at the assigned location -/
+theorem C02_execution_table (sched : Sched) (s : MState) (hi : MInv s) (p : Path) (v : Val) (s' : MState)
+    (hok : setValue sched s p v = (s', none)) :
+    (preState s p).defs = s.defs.filter (fun x => !decide (x.id = p)) ∧
+    (lookDef s.defs p = none → preState s p = s) :=
+  ⟨preState_defs_of_ok sched s hi p v s' hok, preState_of_nodef s p⟩
+
+/-- the assigned location has no definition: everything in terms of the call state -/
+theorem C02_execution_all_kinds_plain (sched : Sched) (s : MState) (hi : MInv s) (p : Path) (v : Val)
+    (hnodef : lookDef s.defs p = none)
+    (hvs : ValidSched (gOf s.idx) (findTaskids s.idx (chainR p)) (sched (findTaskids s.idx (chainR p))))
+    (s' : MState) (hok : setValue sched s p v = (s', none)) :
+    ∃ π : List Path,
+      s'.trace = s.trace ++ (true, p) :: π.flatMap (evsAt s.defs) ∧
+      π.Nodup ∧
+      (∀ x ∈ π, ∃ t, BlockOf s.defs x t) ∧
+      (∀ x, x ∈ π ↔ ∃ t ∈ s.defs, (∃ d ∈ t.deps, 2 ≤ d.length ∧ d <+: p) ∧ DeclChain s.defs t.id x) ∧
+      (∀ u w, u ∈ π → w ∈ π → declEdge s.defs u w → w ≠ u → Dfs3.Before π u w) :=
+  setValue_execution_all_kinds_plain sched s hi p v hnodef hvs s' hok
+
+/-- the same when the schedule is the depth-first sort run on ANY permutation of the start set and ANY adjacency lists
+    with the same neighbour sets (acyclic triggered subgraph) -/
+theorem C02_execution_all_kinds_any_order (s : MState) (hi : MInv s) (p : Path) (v : Val)
+    (hnodef : lookDef s.defs p = none)
+    (g' : Path → List Path) (start' : List Path)
+    (hg : ∀ u w, w ∈ g' u ↔ w ∈ gOf s.idx u)
+    (hperm : start'.Perm (startOf s.idx (chainR p)))
+    (hac : ∀ a b, (∃ s0 ∈ startOf s.idx (chainR p), Dfs3.Reach (gOf s.idx) s0 a) → a ≠ b →
+      Dfs3.Reach (gOf s.idx) a b → Dfs3.Reach (gOf s.idx) b a → False)
+    (s' : MState)
+    (hok : setValue (fun _ => Dfs3.toposort g' (fuelOf s.idx) start') s p v = (s', none)) :
+    ∃ π : List Path,
+      s'.trace = s.trace ++ (true, p) :: π.flatMap (evsAt s.defs) ∧
+      π.Nodup ∧
+      (∀ x ∈ π, ∃ t, BlockOf s.defs x t) ∧
+      (∀ x, x ∈ π ↔ ∃ t ∈ s.defs, (∃ d ∈ t.deps, 2 ≤ d.length ∧ d <+: p) ∧ DeclChain s.defs t.id x) ∧
+      (∀ u w, u ∈ π → w ∈ π → declEdge s.defs u w → w ≠ u → Dfs3.Before π u w) :=
+  setValue_execution_all_kinds_any_order s hi p v hnodef g' start' hg hperm hac s' hok
+
+/-- **cyclic graphs, on the execution** — NO hypothesis on the graph, the model's own order (`sched = id`): the call
+    terminates (every model function is total; the fuel of the depth-first sort is never exhausted, which is what
+    exactness says), and if it completes, its trace is the assigned write followed by one block per element of a
+    duplicate-free `π` whose elements are exactly the tasks reachable from the start set: each triggered task ran once,
+    nothing else ran.  (Nothing is said about the order, and the result need not satisfy the definitions: C01 needs
+    acyclicity.) -/
+theorem C02_execution_all_kinds_cyclic (s : MState) (hi : MInv s) (p : Path) (v : Val)
+    (s' : MState) (hok : setValue id s p v = (s', none)) :
+    ∃ π : List Path,
+      s'.trace = s.trace ++ (true, p) :: π.flatMap (evsAt (preState s p).defs) ∧
+      π.Nodup ∧
+      (∀ x ∈ π, ∃ t, BlockOf (preState s p).defs x t) ∧
+      (∀ x, x ∈ π ↔ ∃ t ∈ (preState s p).defs, (∃ d ∈ t.deps, 2 ≤ d.length ∧ d <+: p) ∧
+        DeclChain (preState s p).defs t.id x) ∧
+      (∀ x, x ∈ π ↔ ∃ s0 ∈ startOf (preState s p).idx (chainR p), Dfs3.Reach (gOf (preState s p).idx) s0 x) :=
+  setValue_execution_cyclic s hi p v s' hok
+
+/-- cyclic graphs, ANY iteration order of the start set and of the neighbour sets -/
+theorem C02_execution_all_kinds_cyclic_any_order (s : MState) (hi : MInv s) (p : Path) (v : Val)
+    (hnodef : lookDef s.defs p = none)
+    (g' : Path → List Path) (start' : List Path)
+    (hg : ∀ u w, w ∈ g' u ↔ w ∈ gOf s.idx u)
+    (hperm : start'.Perm (startOf s.idx (chainR p)))
+    (s' : MState)
+    (hok : setValue (fun _ => Dfs3.toposort g' (fuelOf s.idx) start') s p v = (s', none)) :
+    ∃ π : List Path,
+      s'.trace = s.trace ++ (true, p) :: π.flatMap (evsAt s.defs) ∧
+      π.Nodup ∧
+      (∀ x ∈ π, ∃ t, BlockOf s.defs x t) ∧
+      (∀ x, x ∈ π ↔ ∃ t ∈ s.defs, (∃ d ∈ t.deps, 2 ≤ d.length ∧ d <+: p) ∧ DeclChain s.defs t.id x) ∧
+      (∀ x, x ∈ π ↔ ∃ s0 ∈ startOf s.idx (chainR p), Dfs3.Reach (gOf s.idx) s0 x) :=
+  setValue_execution_cyclic_any_order s hi p v hnodef g' start' hg hperm s' hok
+
+/-- any scheduler that lists the triggered tasks once each, in whatever order (the general form of the two above) -/
+theorem C02_execution_all_kinds_once_exact (sched : Sched) (s : MState) (hi : MInv s) (p : Path) (v : Val)
+    (hoe : OnceExact (findTaskids (preState s p).idx (chainR p)) (sched (findTaskids (preState s p).idx (chainR p))))
+    (s' : MState) (hok : setValue sched s p v = (s', none)) :
+    ∃ π : List Path,
+      s'.trace = s.trace ++ (true, p) :: π.flatMap (evsAt (preState s p).defs) ∧
+      π.Nodup ∧
+      (∀ x ∈ π, ∃ t, BlockOf (preState s p).defs x t) ∧
+      (∀ x, x ∈ π ↔ ∃ t ∈ (preState s p).defs, (∃ d ∈ t.deps, 2 ≤ d.length ∧ d <+: p) ∧
+        DeclChain (preState s p).defs t.id x) ∧
+      (∀ x, x ∈ π ↔ ∃ s0 ∈ startOf (preState s p).idx (chainR p), Dfs3.Reach (gOf (preState s p).idx) s0 x) :=
+  setValue_execution_once_exact sched s hi p v hoe s' hok
+
+/-- the action of a function task is called at most once per assignment: its action-call event occurs in what the
+    call appended exactly once if the task is triggered, not at all otherwise (any graph, any duplicate-free schedule) -/
+theorem C02_action_called_at_most_once (sched : Sched) (s : MState) (p : Path) (v : Val)
+    (hnd : (sched (findTaskids (preState s p).idx (chainR p))).Nodup)
+    (F : MTask) (body : List (Path × Expr)) (hF : lookDef (preState s p).defs F.id = some F) (hk : F.kind = .func body)
+    (s' : MState) (hok : setValue sched s p v = (s', none)) :
+    ∃ ext, s'.trace = s.trace ++ (true, p) :: ext ∧
+      ext.count (false, F.id) = if F.id ∈ sched (findTaskids (preState s p).idx (chainR p)) then 1 else 0 :=
+  action_events_once sched s p v hnd F body hF hk s' hok
+
+/-! non-vacuity: `Manager.Trace2Example` (knob `#K`, expression `d.c`, function task `#F`, all triggered by `d.x := 5`:
+    trace `x, a, b, c, #F-call`) and `Manager.Trace2Cyclic` (`c = e + a`, `e = c + a`: each runs once) in
+    `XModel/ManagerTrace2.lean`; here the all-kinds theorem on the former -/
+example (v : Val) (s' : MState) (hok : setValue id Trace2Example.s3 (Trace2Example.d "x") v = (s', none)) :
+    ∃ π : List Path,
+      s'.trace = Trace2Example.s3.trace ++ (true, Trace2Example.d "x") :: π.flatMap (evsAt Trace2Example.s3.defs) ∧
+      π.Nodup :=
+  have ⟨π, h1, h2, _⟩ := C02_execution_all_kinds_plain id Trace2Example.s3 Trace2Example.s3_inv (Trace2Example.d "x") v
+    Trace2Example.s3_hyps.1 (validSchedule_sound _ _ _ Trace2Example.s3_hyps.2.1 Trace2Example.s3_hyps.2.2) s' hok
+  ⟨π, h1, h2⟩
 
 end Properties.C02
